@@ -89,6 +89,9 @@ func KitchenSink(packageRoot string) *Schema {
 	rec("KeyPart", nil, F("a", P("string")), F("b", P("int64")))
 	rec("ParamPart", nil, F("p", P("string")), Opt("q", P("int32")))
 	s.Add(&TypeDef{Kind: "complexkey", Name: "CK", Namespace: ns, Key: q("KeyPart"), Params: q("ParamPart")})
+	// a complex key whose key record has defaults: a decoded key carries them like any decoded record
+	rec("KeyPartD", nil, F("id", P("int64")), Def("region", P("string"), `"us"`), Def("tags", A(P("string")), `["a","b"]`), Def("tier", R(q("Color")), `"GREEN"`))
+	s.Add(&TypeDef{Kind: "complexkey", Name: "CKD", Namespace: ns, Key: q("KeyPartD"), Params: q("ParamPart")})
 	// record-typed defaults written as {} must still receive the nested record's own defaults
 	rec("Settings", nil, Def("theme", P("string"), `"dark"`), Def("size", P("int32"), "3"), Opt("note", P("string")))
 	rec("Job", nil, F("name", P("string")), Def("settings", R(q("Settings")), `{}`), Def("byEnv", M(R(q("Settings"))), `{"prod":{},"dev":{"size":1}}`), Def("history", A(R(q("Settings"))), `[{}]`))
